@@ -17,7 +17,12 @@ HARMLESS_CHECKS = {
     "H2_earth_transform_equivalent_forms": ["C16", "C04", "C05", "C19"],
     "H3_kalman_filters_equivalent_forms": ["C07", "C09", "C12", "C19"],
     "H4_strapdown_error_model_equivalent_forms": ["C15", "C02", "C17", "C05", "C19"],
+    "H5_filters_renamed_locals": ["C09", "C10", "C11", "C12", "C13", "C19"],
 }
+# round-2 harmless refactorings (one per property, written by independent sub-agents): own property + C19 here;
+# tools/harmless_matrix.sh runs every harmless patch against all 19 checks
+for _k in range(1, 20):
+    HARMLESS_CHECKS["R2_C%02d_refactor" % _k] = sorted({"C%02d" % _k, "C19"})
 
 
 def _run(patch, props):
